@@ -85,6 +85,8 @@ def classify(got, want):
     x, y = got[0].split("\n"), want[0].split("\n")
     for p, q in zip(x, y):
         if p != q:
+            if p.startswith("recovered string type assertion") and q == "recovered runtime error":
+                return "recover:type-assertion-panic-value-is-string"
             if p.startswith("recovered string ") and q == "recovered runtime error":
                 return "recover:runtime-error-value-is-string"
             return None
@@ -93,36 +95,44 @@ def classify(got, want):
 
 # --------------------------------------------------------------------------------------------- corpus
 def corpus_programs(start_idx):
-    """hand-built programs that always run first.  c0: the value of a run-time panic must not be a string."""
+    """hand-built programs that always run first.
+    c0: the value of a run-time panic raised by a runtime helper (division by zero) must not be a string;
+    c1: the same for a failed type assertion to a concrete type (the panic is emitted by the compiler: ssa/interface.go)"""
     out = []
-    P = Program(start_idx)
-    pfx = "P%d" % start_idx
-    f = Func(pfx + "F", 1)
-    a = Var(P.slot(), "a", INT)
-    r = Var(P.slot(), "r", INT)
-    f.params, f.results, f.named_results = [a], [r], True
-    lit = Func("lit", 1)
-    lit.is_lit = True
-    e = Var(P.slot(), "e", "any")
-    slot = P.slot()
-    xs = [Var(slot, "es", STR), Var(slot, "ei", INT), Var(slot, "ee", "any")]
-    lit.body = [Decl([e], [Recover()]),
-                TypeSwitch("", xs, VarRef(e), [TCase([STR], [Print(True, [StrLit(b"recovered string"), VarRef(xs[0])])]),
-                                               TCase([INT], [Print(True, [StrLit(b"recovered int"), VarRef(xs[1])])]),
-                                               TCase([], [Print(True, [StrLit(b"recovered runtime error")])], default=True)]),
-                Assign([VarRef(r)], [IntLit(INT, 7)])]
-    P.add_func(lit, printed=False)
-    z = Var(P.slot(), "z", INT)
-    f.body = [Defer(FuncLit(lit, P.sig([], [])), []), Decl([z], [Bin("sub", VarRef(a), VarRef(a))]),
-              Assign([VarRef(r)], [Bin("quo", VarRef(a), VarRef(z))]), Return([VarRef(r)])]
-    P.add_func(f)
-    m = Func(pfx + "Main", 4)
-    m.body = [Print(True, [Call(f, [IntLit(INT, 5)])])]
-    P.add_func(m)
-    P.main = m
-    P.features.add("corpus:recover-runtime-error-type")
-    P.seed = "corpus-c0"
-    out.append(P)
+    for n, kind in enumerate(["divide", "assert"]):
+        idx = start_idx + n
+        P = Program(idx)
+        pfx = "P%d" % idx
+        f = Func(pfx + "F", 1)
+        a = Var(P.slot(), "a", INT)
+        r = Var(P.slot(), "r", INT)
+        f.params, f.results, f.named_results = [a], [r], True
+        lit = Func("lit", 1)
+        lit.is_lit = True
+        e = Var(P.slot(), "e", "any")
+        slot = P.slot()
+        xs = [Var(slot, "es", STR), Var(slot, "ei", INT), Var(slot, "ee", "any")]
+        lit.body = [Decl([e], [Recover()]),
+                    TypeSwitch("", xs, VarRef(e), [TCase([STR], [Print(True, [StrLit(b"recovered string"), VarRef(xs[0])])]),
+                                                   TCase([INT], [Print(True, [StrLit(b"recovered int"), VarRef(xs[1])])]),
+                                                   TCase([], [Print(True, [StrLit(b"recovered runtime error")])], default=True)]),
+                    Assign([VarRef(r)], [IntLit(INT, 7)])]
+        P.add_func(lit, printed=False)
+        if kind == "divide":
+            z = Var(P.slot(), "z", INT)
+            point = [Decl([z], [Bin("sub", VarRef(a), VarRef(a))]), Assign([VarRef(r)], [Bin("quo", VarRef(a), VarRef(z))])]
+        else:
+            y = Var(P.slot(), "y", "any")
+            point = [Decl([y], [ToIface("any", VarRef(a))]), Print(True, [Assert(VarRef(y), STR)])]
+        f.body = [Defer(FuncLit(lit, P.sig([], [])), [])] + point + [Return([VarRef(r)])]
+        P.add_func(f)
+        m = Func(pfx + "Main", 4)
+        m.body = [Print(True, [Call(f, [IntLit(INT, 5)])])]
+        P.add_func(m)
+        P.main = m
+        P.features.add("corpus:recover-runtime-error-type")
+        P.seed = "corpus-c%d" % n
+        out.append(P)
     return out
 
 
@@ -133,6 +143,7 @@ class Bench:
         self.n_llgo_builds = 0
         self.toolchain_crashes = []
         self.build_failures = []
+        self.min_budget = 12 if ctx.tier == "quick" else 150      # minimiser tests for the whole run
 
     def write(self, progs, npk, tag):
         d = os.path.join(self.ctx.scratch, "mod-%s" % tag)
@@ -287,7 +298,7 @@ def run_check(ctx, args):
     if os.environ.get("VERIF_C01_LAYOUTS"):          # development aid: restrict the layouts, e.g. "1,3"
         layouts = [int(x) for x in os.environ["VERIF_C01_LAYOUTS"].split(",")]
     per_batch = int(os.environ.get("VERIF_C01_BATCH", "40"))
-    rounds = 1 if quick else 15
+    rounds = 1 if quick else 8
     stats = {"programs": 0, "comparisons": 0, "model_disagreements": 0, "llgo_disagreements": 0, "skipped_reference_timeout": 0,
              "skipped_model_out_of_fuel": 0}
     feats, samples, model_dis = {}, [], []
@@ -417,8 +428,9 @@ def report_disagreement(ctx, bench, P, npk, opt, got, want):
         return norm_real(e, rc) != w
     tests = 0
     try:
-        if pred(P):
-            _, tests = minimize.minimize(P, pred, max_tests=10 if ctx.tier == "quick" else 80, log=ctx.log)
+        if bench.min_budget > 0 and pred(P):
+            _, tests = minimize.minimize(P, pred, max_tests=min(bench.min_budget, 10 if ctx.tier == "quick" else 60), log=ctx.log)
+            bench.min_budget -= tests
     except Exception as e:      # the minimiser must never hide the finding
         ctx.log("minimiser stopped:", repr(e)[:200])
     text = program_text(P, npk)
